@@ -14,7 +14,7 @@ RULE = ("one evaluation = one history: up to 6 requests of random kinds (ping, l
         "out-of-order/duplicate/unknown delivery; distinct by (kinds, deliveries) hash")
 ASSUMPTIONS = ["reply shapes are the documented result shapes of vf/catalogue.py with id/from matched to the request",
                "only kinds for which the stack defines a reply entity are issued"]
-REQUIRED = ["histories", "requests", "deliveries", "predicted_callbacks", "observed_callbacks", "delivery:result", "delivery:error", "delivery:duplicate",
+REQUIRED = ["histories", "callbacks_that_raised", "reissued_in_callback", "requests", "deliveries", "predicted_callbacks", "observed_callbacks", "delivery:result", "delivery:error", "delivery:duplicate",
             "delivery:unknown-id", "delivery:non-reply", "delivery:foreign", "internal:key-fetch", "internal:key-upload"]
 TIMEOUT = {"quick": 600, "thorough": 7200}
 
@@ -77,6 +77,10 @@ def reply(r, kind, req_node, typ, rid=None):
     return ("iq", a, result_body(r, kind, req_node), None)
 
 
+class CallbackBoom(RuntimeError):
+    pass
+
+
 def make_app():
     from yowsup.layers.interface import YowInterfaceLayer
 
@@ -111,11 +115,23 @@ def one_history(acc, seed, tag, kits):
         ent = kinds[k](r)
         rec = {"uid": len(reqs), "kind": k, "entity": ent, "id": ent.getId()}
 
+        # what the application does inside its callbacks: nothing, raise, or (on error) issue the same request again
+        rec["behaviour"] = r.choice(["plain", "plain", "plain", "raise", "retry-on-error"])
+
         def on_ok(reply_entity, original, rec=rec):
             log.append((rec["uid"], "success", original is rec["entity"], reply_entity))
+            if rec["behaviour"] == "raise":
+                raise CallbackBoom("application success callback raised")
 
         def on_err(reply_entity, original, rec=rec):
             log.append((rec["uid"], "error", original is rec["entity"], reply_entity))
+            if rec["behaviour"] == "raise":
+                raise CallbackBoom("application error callback raised")
+            if rec["behaviour"] == "retry-on-error" and not rec.get("retried"):
+                rec["retried"] = True
+                rec["reissued"] = True
+                app._sendIq(original, rec["on_ok"], rec["on_err"])
+        rec["on_ok"], rec["on_err"] = on_ok, on_err
         before = len(kit.bottom.sent)
         app._sendIq(ent, on_ok, on_err)
         out = kit.bottom.sent[before:]
@@ -187,6 +203,8 @@ def one_history(acc, seed, tag, kits):
         w["deliveries"].append([d, st[1].get("id"), st[1].get("type")])
         try:
             kit.inject(st)
+        except CallbackBoom:
+            acc.count("callbacks_that_raised")       # reported to the caller of receive: fine
         except Exception as e:  # noqa
             import traceback
             fr = [fs.name for fs in traceback.extract_tb(e.__traceback__) if "/yowsup/" in fs.filename][-1:]
@@ -222,6 +240,13 @@ def one_history(acc, seed, tag, kits):
                 acc.violation("reply-id-mismatch:%s" % kind_of, "the callback got a reply with another id", w)
                 ok = False
                 break
+            rq = reqs[uid]
+            if rq.pop("reissued", False):
+                # the error callback sent the same request again: it is outstanding again under the same id
+                pending[rq["id"]] = rq
+                answered[:] = [(a, b) for a, b in answered if a is not rq]
+                acc.count("reissued_in_callback")
+                odd = True
     acc.count("histories")
     from vf.evidence import h
     acc.case(h([w["requests"], w["deliveries"], enc]), nontrivial=(max_out >= 2 and odd))
